@@ -158,11 +158,13 @@ class Type3Tag(nfc.tag.Tag):
         def _read_attribute_data(self):
             try:
                 data = self._tag.read_from_ndef_service(0)
-            except Type3TagCommandError:
+            except Type3TagCommandError as error:
+                self._attribute_error = error
                 return None
 
             if sum(data[0:14]) != unpack(">H", data[14:16])[0]:
                 log.debug("ndef attribute data checksum error")
+                self._attribute_error = Type3TagCommandError(DATA_SIZE_ERROR)
                 return None
 
             ver, nbr, nbw, nmaxb = unpack(">BBBH", data[0:5])
@@ -227,6 +229,8 @@ class Type3Tag(nfc.tag.Tag):
 
         def _write_ndef_data(self, data):
             attributes = self._read_attribute_data()
+            if attributes is None:
+                raise self._attribute_error
             attributes['writef'] = 0x0F
             self._write_attribute_data(attributes)
 
